@@ -114,6 +114,9 @@ def replay(prop, payload):
         run_vh(["budget-replay", "--case", cs, "--out", tr])
         v = validate_simple(res, prop, "Budget.tla", "Budget.cfg", tr, cs, "replay", "budget", nshards=1,
                             boundary=lambda e: e.get("ev") in ("Long", "Panic"))
+    elif kind == "direction":
+        run_vh(["direction-replay", "--case", cs, "--out", tr])
+        v = validate_simple(res, prop, "Trace_Direction.tla", "Trace_Direction.cfg", tr, cs, "replay", "direction", nshards=1)
     elif kind == "print":
         run_vh(["print-replay", "--case", cs, "--out", tr, "--dir", wd])
         v = validate_simple(res, prop, "Print.tla", "Print_trace.cfg", tr, cs, "replay", "print", nshards=1,
@@ -264,7 +267,44 @@ def c06(tier, seed):
     if not r["ok"]:
         res.violation(f"dist-s{seed}", {"kind": "dist", "dist": r.get("dist"), "env": env, "seed": seed, "tier": tier},
                       f"distributional clause failed: [n, nonSolved, overAll, overSym, nsym, maxit] = {r.get('dist')} (kfail={kfail})")
+    res.coverage["direction"] = _direction(res, tier, seed, wd)
     return res
+
+
+def _direction(res, tier, seed, wd):
+    """the search direction solves the block rows of the linearised embedding that do not depend on the sparse solve
+    (Direction.tla at design level with two must-fail variants, Trace_Direction.tla on every KKT solve of recorded runs)"""
+    from vlib import fdec
+    mc = run_mc("Direction.tla", "MC_Direction.cfg", workers=4, timeout=900, coverage=False, name="MC_Direction")
+    for neg in ("MC_Direction_neg.cfg", "MC_Direction_neg2.cfg"):
+        nn = run_mc("Direction.tla", neg, workers=4, timeout=900, coverage=False, name=neg[:-4], expect_ok=False)
+        if nn["ok"] or "TauRow" not in nn["violated"]:
+            raise ToolError(f"vacuity guard: Direction.tla with a wrong dtau denominator ({neg}) no longer violates TauRow")
+    tr, cs = [os.path.join(wd, "direction" + x) for x in (".ndjson", ".cases.ndjson")]
+    cnt = 400 if tier == "quick" else 20000
+    p = run_vh(["direction", "--seed", seed, "--count", cnt, "--out", tr, "--cases", cs], timeout=4 * 3600)
+    meta = json.loads(p.stdout.strip().splitlines()[-1])
+    v = validate_trace("Trace_Direction.tla", "Trace_Direction.cfg", tr, nshards=10, boundary=lambda e: True)
+    if not v["ok"]:
+        cases = {c["run"]: c for c in read_ndjson(cs)}
+        groups = {}
+        for rj in v["rejects"]:
+            e = rj["event"] or {}
+            failing = sorted(k for k, (er, tl) in (e.get("checks") or {}).items() if not fdec(er) <= fdec(tl))
+            cls = f"{e.get('dir')}:{'+'.join(failing) or 'missing_check_or_affine'}"
+            groups.setdefault(cls, []).append(e)
+        for cls, evs in list(groups.items())[:10]:
+            e = evs[0]
+            res.violation("direction-" + cls.replace(":", "_").replace("+", "_")[:70],
+                          {"kind": "direction", "prop": "C06", "case": cases.get(e.get("run")), "event": e, "count": len(evs)},
+                          f"{len(evs)} search directions violate {cls} (first: run={e.get('run')} pass={e.get('pass')})", key="direction:" + cls)
+    if v["ok"] and not (meta["combined"] > 0 and meta["runs_with_P"] > 0 and meta["runs_nonsymmetric"] > 0):
+        raise ToolError(f"direction recorder did not exercise every family: {meta}")
+    return {"mc_states": mc["states"], "events": v["events"], "meta": meta,
+            "rule": "one event = one call of DefaultKKTSystem::solve (affine or combined direction) in a recorded solve of family G, "
+                    "all-cone planted problems with random settings, large quadratic costs with equilibration off, infeasible, "
+                    "extreme-magnitude, badly scaled and objective-scaled problems: tau row and kappa row of the linearised embedding, "
+                    "composition from the two reduced solves and the four right-hand sides, each as <<|defect|, rounding bound>> decided by TLC"}
 
 
 def _dist_run(summary, env):
